@@ -1,8 +1,9 @@
 /-
-Compiler correctness: running the model COMPILER's output (Model/Compiler.lean `exprCode`) on the
-model VM (Model/Vm.lean `runLoop`) computes what the AST-level EVALUATOR (Model/Eval.lean
-`evalExpr`) computes.  This links two stage models of DESIGN §10.3 BY PROOF (each of them is tied
-to the real stage by its own correspondence harness: c07c / cvm / c03).
+Compiler correctness: running the model COMPILER's output (Model/Compiler.lean `exprCode`,
+`nodeCode`) on the model VM (Model/Vm.lean `runLoop`) computes what the AST-level EVALUATOR
+(Model/Eval.lean `evalExpr`, `execNode`) computes.  This links two stage models of DESIGN §10.3
+BY PROOF (each of them is tied to the real stage by its own correspondence harness: c07c / cvm /
+c03).
 
 What is related, and how
 * Code: `exprCode base loop e` is the instruction list `compile_expr(e)` appends when the chunk
@@ -12,68 +13,82 @@ What is related, and how
   non-empty exactly when the compiler added the instruction with a span (`CodeAt`, `embed`).
   The theorems are about UNOPTIMISED code (C09 is the bridge over `Chunk::optimize`).
 * Scopes: the evaluator's `Scope` and the VM state's `scope` field are the same type
-  (Model/Scope.lean), so the correspondence `ScopeRel` is equality of that component; `StRel`
+  (Model/Scope.lean).  The correspondence `ScopeRel` (= `ScopeSim`, Lemmas/RefineScope.lean) is
+  equality of `set` variables, includer, context and global context, and equality of the loop
+  stack UP TO the `end_ip` each loop recorded (the VM records the operand of `Iterate`, the
+  evaluator a constant; both are zero before the first `Iterate` and non-zero after).  `StRel`
   adds output and capture stack for statements.
 * Values: the stack relation is "same values, any span ranges": the theorem says the VM ends in
   `st.push v rg` for SOME range `rg` (of which it only promises `SpanOk`: both ends carry a span).
 * Errors: classes, `errMatch` (Lemmas/RefineInstr.lean); the evaluator's `fuel` and `unsupported`
   outcomes are not errors of the engine and are excluded (`reportable`).
-* Fuel: the VM needs at most as many steps as the code has instructions (the core has no loop):
-  `runLoop (n + k) … = runLoop k …` with `n ≤ |code|`.
+* Fuel: `runLoop (n + k) … = runLoop k …`: `n` steps are used; on the loop-free core (`lf = true`)
+  `n ≤ |code|`.
 * Environment: both models leave float arithmetic and float printing open; they must be given
-  the same ones (`EnvRel`).  An error report must be possible at all (`reportTargetOk`: the
-  chunk's template is the VM's or is registered — Props/C07Vm.lean has the same hypothesis).
+  the same ones (`EnvRel`); the VM's tables of built-in filters / tests / functions must return
+  what the evaluator's fixed table returns (`BuiltinsRel`; `venvOf`: it is satisfiable).  An error
+  report must be possible at all (`reportTargetOk`: the chunk's template is the VM's or is
+  registered — Props/C07Vm.lean has the same hypothesis).
 -/
-import TeraModel.Lemmas.RefineExpr
+import TeraModel.Lemmas.RefineNode
 import TeraModel.Lemmas.EvalFuel
 namespace Tera.Refine
 open Tera Tera.Vm Tera.Compiler
 
 /-! ## The correspondence between evaluator scopes / states and VM states -/
 
-/-- The VM state `st` reads names the way the evaluator scope `sc` does: loop stack, `set`
-variables, includer chain, context and global context are literally the evaluator's. -/
-def ScopeRel (st : State) (sc : Scope) : Prop := st.scope = sc
+/-- The VM state `st` reads names the way the evaluator scope `sc` does: `set` variables,
+includer chain, context and global context are literally the evaluator's, and so is the loop
+stack except for the `end_ip` a loop recorded (see `ScopeSim`). -/
+def ScopeRel (st : State) (sc : Scope) : Prop := ScopeSim sc st.scope
 
-/-- … and for statements: same scope, same output so far, same capture stack. -/
-def StRel (st : State) (est : Tera.St) : Prop :=
-  st.scope = est.scope ∧ st.out = est.out ∧ st.captures = est.captures
+/-- … and for statements: corresponding scope, same output so far, same capture stack. -/
+def StRel (st : State) (est : Tera.St) : Prop := StSim est st
+
+/-- name resolution cannot tell corresponding scopes apart -/
+theorem ScopeRel.getValue {st : State} {sc : Scope} (h : ScopeRel st sc) (n : String) :
+    sc.getValue n = st.scope.getValue n := ScopeSim.getValue h n
 
 /-- non-vacuity: the state `Tera::render` starts the VM in corresponds to the scope the
 evaluator's `render` starts from, for every context -/
-example (ctx g : Ctx) : ScopeRel (entryState none ctx g) (Scope.root ctx g) := rfl
+example (ctx g : Ctx) : ScopeRel (entryState none ctx g) (Scope.root ctx g) := ScopeSim.refl _
 example (ctx g : Ctx) :
     StRel (entryState none ctx g) { scope := Scope.root ctx g, out := [], captures := [] } :=
-  ⟨rfl, rfl, rfl⟩
+  ⟨ScopeSim.refl _, rfl, rfl⟩
+/-- inside a loop the two scopes differ (in `endIp`) and still correspond -/
+example : ScopeRel (State.fresh (.mk [{ ForLoop.new [] with endIp := 7 }] [] none [] none))
+    (.mk [{ ForLoop.new [] with endIp := ITERATE_END_IP }] [] none [] none) :=
+  ⟨⟨⟨rfl, by simp [ITERATE_END_IP]⟩, trivial⟩, rfl, rfl, rfl, rfl⟩
 /-- … and it is not the trivial relation -/
 example : ¬ ScopeRel (entryState none [("x", .u64 1)] []) (Scope.root [] []) := by
   intro h
-  simp [ScopeRel, entryState, State.fresh, Scope.root] at h
+  have := h.2.2.2.1
+  simp [entryState, State.fresh, Scope.root, Scope.context] at this
 
 /-! ## R1: `compile_expr_correct` -/
 
 /-- The statement, for the expressions satisfying `P`: for every code context (`pre`, `post`),
-every loop context of the compiler, every VM state whose scope is the evaluator's, every value
-stack, every evaluator fuel. -/
-def CompileExprCorrect (P : Expr → Prop) : Prop :=
+every loop context of the compiler, every VM state whose scope corresponds to the evaluator's,
+every value stack, every evaluator fuel.  `bounded`: the step fuel is at most `|code|`. -/
+def CompileExprCorrect (P : Expr → Prop) (bounded : Bool) : Prop :=
   ∀ (rec : VmCtx → Chunk → State → RunRes) (venv : Vm.Env) (eenv : Tera.Env) (vm : VmCtx)
     (name : String) (pre post vcode : List VEntry) (loop : Option Nat) (e : Expr),
-    P e → EnvRel venv eenv →
+    P e → EnvRel venv eenv → BuiltinsRel venv eenv →
     embed (exprCode pre.length loop e) = some vcode →
     reportTargetOk venv vm ⟨name, pre ++ vcode ++ post⟩ = true →
     ∀ (st : State) (sc : Scope), ScopeRel st sc → ∀ (fuel : Nat),
       (∀ v, evalExpr fuel eenv sc e = .ok v →
-        ∃ n rg, n ≤ vcode.length ∧ SpanOk ⟨name, pre ++ vcode ++ post⟩ rg ∧
+        ∃ n rg, (bounded = true → n ≤ vcode.length) ∧ SpanOk ⟨name, pre ++ vcode ++ post⟩ rg ∧
           ∀ k, runLoop rec venv vm ⟨name, pre ++ vcode ++ post⟩ (n + k) pre.length st
             = runLoop rec venv vm ⟨name, pre ++ vcode ++ post⟩ k (pre.length + vcode.length)
                 (st.push v rg))
       ∧ (∀ err, evalExpr fuel eenv sc e = .error err → reportable err = true →
-        ∃ n re, n ≤ vcode.length ∧ errMatch err re = true ∧
+        ∃ n re, (bounded = true → n ≤ vcode.length) ∧ errMatch err re = true ∧
           ∀ k, runLoop rec venv vm ⟨name, pre ++ vcode ++ post⟩ (n + k) pre.length st = .err re)
 
 /-- Full strength: every expression the parser can produce (`exprScoped`: no binary `Is` /
 `Pipe` node).  NOT proved in full: `compile_expr_correct_core` proves it for `InCore`. -/
-def compile_expr_correct_full : Prop := CompileExprCorrect (fun e => exprScoped e = true)
+def compile_expr_correct_full : Prop := CompileExprCorrect (fun e => exprScoped e = true) false
 
 theorem embed_length : ∀ {code : Code} {vcode : List VEntry}, embed code = some vcode →
     vcode.length = code.length
@@ -91,60 +106,68 @@ theorem embed_length : ∀ {code : Code} {vcode : List VEntry}, embed code = som
         subst h
         simp [embed_length (code := rest) hr]
 
-/-- `compile_expr_correct` on the core `InCore`: constants, variables, (optional) attribute
+/-- `compile_expr_correct` on the core `InCore lf`: constants, variables, (optional) attribute
 access, `not`, unary minus, `* / // % + - **`, `< > <= >=`, `== !=`, `~`, `in`, `and`, `or`
-(short-circuit jumps), the ternary, nested arbitrarily. -/
-theorem compile_expr_correct_core : CompileExprCorrect InCore := by
-  intro rec venv eenv vm name pre post vcode loop e hcore hE hemb ht st sc hsc fuel
+(short-circuit jumps), the ternary, (optional) subscripts and slices, array and map literals with
+spreads, filters / tests / function calls with keyword arguments (parametric in the built-in
+table: `BuiltinsRel`), and — with `lf = false` — list comprehensions (with key, condition),
+nested arbitrarily; with `lf = true` (no comprehension) the step fuel is at most `|code|`.
+Not covered: component calls. -/
+theorem compile_expr_correct_core (lf : Bool) : CompileExprCorrect (InCore lf) lf := by
+  intro rec venv eenv vm name pre post vcode loop e hcore hE hB hemb ht st sc hsc fuel
   have hlen := embed_length hemb
   have hcode := codeAt_of_embed (name := name) (pre := pre) (post := post) hemb
-  have hsim := expr_sim (rec := rec) hE ht fuel e hcore pre.length loop st hcode
-  rw [hsc] at hsim
+  have hsim := expr_sim hE hB ht fuel e hcore pre.length loop st sc hsc hcode
   constructor
   · intro v hv
     rw [hv] at hsim
     obtain ⟨tr, rg, hrun, hsp, _, hl⟩ := hsim
-    refine ⟨tr.length, rg, by omega, hsp, fun k => ?_⟩
+    refine ⟨tr.length, rg, fun h => by have := hl h; omega, hsp, fun k => ?_⟩
     rw [hlen]
     exact hrun.runLoop k
   · intro err hv hrep
     rw [hv] at hsim
     obtain ⟨tr, re, hf, hm, _, hl⟩ := hsim hrep
-    exact ⟨tr.length, re, by omega, hm, fun k => hf.runLoop k⟩
+    exact ⟨tr.length, re, fun h => by have := hl h; omega, hm, fun k => hf.runLoop k⟩
 
 /-- The same with the code anywhere in any chunk (`CodeAt`) and with the trace: the run executes
-only instructions of the expression's own range, at most `|code|` of them. -/
-theorem compile_expr_correct_at {rec : VmCtx → Chunk → State → RunRes} {venv : Vm.Env}
-    {eenv : Tera.Env} {vm : VmCtx} {c : Chunk} (hE : EnvRel venv eenv)
-    (ht : reportTargetOk venv vm c = true) (fuel : Nat) (e : Expr) (hcore : InCore e) (base : Nat)
-    (loop : Option Nat) (st : State) (hcode : CodeAt c base (exprCode base loop e)) :
-    ExprOutcome rec venv vm c (evalExpr fuel eenv st.scope e) base (exprCode base loop e).length st :=
-  expr_sim hE ht fuel e hcore base loop st hcode
+only instructions of the expression's own range (at most `|code|` of them when `lf = true`). -/
+theorem compile_expr_correct_at {venv : Vm.Env}
+    {eenv : Tera.Env} {vm : VmCtx} {c : Chunk} {lf : Bool} (hE : EnvRel venv eenv)
+    (hB : BuiltinsRel venv eenv) (ht : reportTargetOk venv vm c = true) (fuel : Nat) (e : Expr)
+    (hcore : InCore lf e) (base : Nat) (loop : Option Nat) (st : State) (sc : Scope)
+    (hsc : ScopeRel st sc) (hcode : CodeAt c base (exprCode base loop e)) :
+    ExprOutcome venv vm c lf (evalExpr fuel eenv sc e) base (exprCode base loop e).length st :=
+  expr_sim hE hB ht fuel e hcore base loop st sc hsc hcode
 
-/-- never a panic, never `unmodelled`, never out of step fuel: with `|code|` units of step fuel
-the loop is past the expression's code (with the evaluator's value on the stack) or has returned
-a rendering error, whenever the evaluator gives a value or a reportable error -/
-theorem compile_expr_no_panic {rec : VmCtx → Chunk → State → RunRes} {venv : Vm.Env}
-    {eenv : Tera.Env} {vm : VmCtx} {c : Chunk} (hE : EnvRel venv eenv)
-    (ht : reportTargetOk venv vm c = true) (fuel : Nat) (e : Expr) (hcore : InCore e) (base : Nat)
-    (loop : Option Nat) (st : State) (hcode : CodeAt c base (exprCode base loop e))
-    (hrep : ∀ err, evalExpr fuel eenv st.scope e = .error err → reportable err = true) (k : Nat) :
-    (∃ v rg n, n ≤ (exprCode base loop e).length ∧ evalExpr fuel eenv st.scope e = .ok v ∧
+/-- never a panic, never `unmodelled`, never out of step fuel: on the loop-free core, with
+`|code|` units of step fuel the loop is past the expression's code (with the evaluator's value on
+the stack) or has returned a rendering error, whenever the evaluator gives a value or a
+reportable error -/
+theorem compile_expr_no_panic {venv : Vm.Env}
+    {eenv : Tera.Env} {vm : VmCtx} {c : Chunk} (hE : EnvRel venv eenv) (hB : BuiltinsRel venv eenv)
+    (ht : reportTargetOk venv vm c = true) (fuel : Nat) (e : Expr) (hcore : InCore true e)
+    (base : Nat) (loop : Option Nat) (st : State) (sc : Scope) (hsc : ScopeRel st sc)
+    (hcode : CodeAt c base (exprCode base loop e))
+    (hrep : ∀ err, evalExpr fuel eenv sc e = .error err → reportable err = true) (k : Nat) :
+    (∃ v rg n, n ≤ (exprCode base loop e).length ∧ evalExpr fuel eenv sc e = .ok v ∧
         runLoop rec venv vm c ((exprCode base loop e).length + k) base st
           = runLoop rec venv vm c ((exprCode base loop e).length - n + k)
               (base + (exprCode base loop e).length) (st.push v rg))
     ∨ (∃ re, runLoop rec venv vm c ((exprCode base loop e).length + k) base st = .err re) := by
-  have hsim := expr_sim (rec := rec) hE ht fuel e hcore base loop st hcode
-  cases hv : evalExpr fuel eenv st.scope e with
+  have hsim := expr_sim hE hB ht fuel e hcore base loop st sc hsc hcode
+  cases hv : evalExpr fuel eenv sc e with
   | ok v =>
     rw [hv] at hsim
     obtain ⟨tr, rg, hrun, _, _, hl⟩ := hsim
+    have hl := hl rfl
     refine .inl ⟨v, rg, tr.length, hl, rfl, ?_⟩
     have := hrun.runLoop ((exprCode base loop e).length - tr.length + k)
     rw [← this]; congr 1; omega
   | error err =>
     rw [hv] at hsim
     obtain ⟨tr, re, hf, _, _, hl⟩ := hsim (hrep err hv)
+    have hl := hl rfl
     refine .inr ⟨re, ?_⟩
     have := hf.runLoop ((exprCode base loop e).length - tr.length + k)
     rw [← this]; congr 1; omega
@@ -152,24 +175,26 @@ theorem compile_expr_no_panic {rec : VmCtx → Chunk → State → RunRes} {venv
 /-! ## R2: evaluator theorems transferred to the compiled code -/
 
 section
-variable {rec : VmCtx → Chunk → State → RunRes} {venv : Vm.Env} {eenv : Tera.Env} {vm : VmCtx}
-  {c : Chunk}
+variable {venv : Vm.Env} {eenv : Tera.Env} {vm : VmCtx}
+  {c : Chunk} {lf : Bool}
 
 /-- `and_or_short_circuit_compiled` (`and`): when the left operand (in the core) evaluates to a
 falsy `a`, the compiled `l and r` leaves `a` itself on the stack and NO instruction of `r`'s code
 range `[base + |l| + 1, end)` is executed — for EVERY right operand `r`, in the core or not. -/
-theorem and_short_circuit_compiled (hE : EnvRel venv eenv) (ht : reportTargetOk venv vm c = true)
-    (fuel : Nat) (l r : Expr) (hl : InCore l) (base : Nat) (loop : Option Nat) (st : State)
+theorem and_short_circuit_compiled (hE : EnvRel venv eenv) (hB : BuiltinsRel venv eenv)
+    (ht : reportTargetOk venv vm c = true)
+    (fuel : Nat) (l r : Expr) (hl : InCore lf l) (base : Nat) (loop : Option Nat) (st : State)
+    (sc : Scope) (hsc : ScopeRel st sc)
     (hcode : CodeAt c base (exprCode base loop (.binary .And l r)))
-    (a : Value) (hev : evalExpr fuel eenv st.scope l = .ok a) (hfalsy : a.isTruthy = false) :
-    ∃ tr rg, Run rec venv vm c base st tr (base + (exprCode base loop (.binary .And l r)).length)
+    (a : Value) (hev : evalExpr fuel eenv sc l = .ok a) (hfalsy : a.isTruthy = false) :
+    ∃ tr rg, Run venv vm c base st tr (base + (exprCode base loop (.binary .And l r)).length)
         (st.push a rg)
       ∧ ∀ p, base + (exprCode base loop l).length + 1 ≤ p → p ∉ tr := by
   rw [exprCode_and] at hcode ⊢
   rw [CodeAt.append, CodeAt.append] at hcode
   obtain ⟨⟨hc1, hc2⟩, _⟩ := hcode
   have hent := CodeAt.single.mp hc2
-  have h1 := expr_sim (rec := rec) hE ht fuel l hl base loop st hc1
+  have h1 := expr_sim hE hB ht fuel l hl base loop st sc hsc hc1
   rw [hev] at h1
   obtain ⟨tr1, rg1, hrun1, _, hw1, _⟩ := h1
   refine ⟨tr1 ++ [_], rg1, ((hrun1.trans (run_jumpIfFalseOrPop_false hent st a rg1 hfalsy)).cast ?_), ?_⟩
@@ -181,18 +206,20 @@ theorem and_short_circuit_compiled (hE : EnvRel venv eenv) (ht : reportTargetOk 
 
 /-- `and_or_short_circuit_compiled` (`or`): dually, a truthy left operand is the result and `r`'s
 code is not executed. -/
-theorem or_short_circuit_compiled (hE : EnvRel venv eenv) (ht : reportTargetOk venv vm c = true)
-    (fuel : Nat) (l r : Expr) (hl : InCore l) (base : Nat) (loop : Option Nat) (st : State)
+theorem or_short_circuit_compiled (hE : EnvRel venv eenv) (hB : BuiltinsRel venv eenv)
+    (ht : reportTargetOk venv vm c = true)
+    (fuel : Nat) (l r : Expr) (hl : InCore lf l) (base : Nat) (loop : Option Nat) (st : State)
+    (sc : Scope) (hsc : ScopeRel st sc)
     (hcode : CodeAt c base (exprCode base loop (.binary .Or l r)))
-    (a : Value) (hev : evalExpr fuel eenv st.scope l = .ok a) (htruthy : a.isTruthy = true) :
-    ∃ tr rg, Run rec venv vm c base st tr (base + (exprCode base loop (.binary .Or l r)).length)
+    (a : Value) (hev : evalExpr fuel eenv sc l = .ok a) (htruthy : a.isTruthy = true) :
+    ∃ tr rg, Run venv vm c base st tr (base + (exprCode base loop (.binary .Or l r)).length)
         (st.push a rg)
       ∧ ∀ p, base + (exprCode base loop l).length + 1 ≤ p → p ∉ tr := by
   rw [exprCode_or] at hcode ⊢
   rw [CodeAt.append, CodeAt.append] at hcode
   obtain ⟨⟨hc1, hc2⟩, _⟩ := hcode
   have hent := CodeAt.single.mp hc2
-  have h1 := expr_sim (rec := rec) hE ht fuel l hl base loop st hc1
+  have h1 := expr_sim hE hB ht fuel l hl base loop st sc hsc hc1
   rw [hev] at h1
   obtain ⟨tr1, rg1, hrun1, _, hw1, _⟩ := h1
   refine ⟨tr1 ++ [_], rg1, ((hrun1.trans (run_jumpIfTrueOrPop_true hent st a rg1 htruthy)).cast ?_), ?_⟩
@@ -210,18 +237,19 @@ theorem and_short_circuit_value (fuel : Nat) (sc : Scope) (l r : Expr) (a : Valu
 
 /-- `ternary_lazy_compiled`, condition truthy: the VM's result is the `t` branch's (value or error
 class), and no instruction of `f`'s code range is executed — for EVERY `f`, in the core or not. -/
-theorem ternary_lazy_compiled_true (hE : EnvRel venv eenv) (ht : reportTargetOk venv vm c = true)
-    (fuel : Nat) (cnd t f : Expr) (hc : InCore cnd) (htc : InCore t) (base : Nat)
-    (loop : Option Nat) (st : State)
+theorem ternary_lazy_compiled_true (hE : EnvRel venv eenv) (hB : BuiltinsRel venv eenv)
+    (ht : reportTargetOk venv vm c = true)
+    (fuel : Nat) (cnd t f : Expr) (hc : InCore lf cnd) (htc : InCore lf t) (base : Nat)
+    (loop : Option Nat) (st : State) (sc : Scope) (hsc : ScopeRel st sc)
     (hcode : CodeAt c base (exprCode base loop (.ternary cnd t f)))
-    (a : Value) (hev : evalExpr fuel eenv st.scope cnd = .ok a) (htruthy : a.isTruthy = true) :
+    (a : Value) (hev : evalExpr fuel eenv sc cnd = .ok a) (htruthy : a.isTruthy = true) :
     let fStart := base + (exprCode base loop cnd).length + 1
       + (exprCode (base + (exprCode base loop cnd).length + 1) loop t).length + 1
-    (∀ v, evalExpr fuel eenv st.scope t = .ok v →
-      ∃ tr rg, Run rec venv vm c base st tr (base + (exprCode base loop (.ternary cnd t f)).length)
+    (∀ v, evalExpr fuel eenv sc t = .ok v →
+      ∃ tr rg, Run venv vm c base st tr (base + (exprCode base loop (.ternary cnd t f)).length)
           (st.push v rg) ∧ ∀ p, fStart ≤ p → p ∉ tr)
-    ∧ (∀ err, evalExpr fuel eenv st.scope t = .error err → reportable err = true →
-      ∃ tr re, Fails rec venv vm c base st tr re ∧ errMatch err re = true
+    ∧ (∀ err, evalExpr fuel eenv sc t = .error err → reportable err = true →
+      ∃ tr re, Fails venv vm c base st tr re ∧ errMatch err re = true
         ∧ ∀ p, fStart ≤ p → p ∉ tr) := by
   intro fStart
   simp only [exprCode] at hcode ⊢
@@ -230,12 +258,12 @@ theorem ternary_lazy_compiled_true (hE : EnvRel venv eenv) (ht : reportTargetOk 
   have hent2 := CodeAt.single.mp hc2
   have hent4 := CodeAt.single.mp hc4
   simp only [List.length_append, List.length_singleton, ← Nat.add_assoc] at hc3 hent4 ⊢
-  have h1 := expr_sim (rec := rec) hE ht fuel cnd hc base loop st hc1
+  have h1 := expr_sim hE hB ht fuel cnd hc base loop st sc hsc hc1
   rw [hev] at h1
   obtain ⟨tr1, rg1, hrun1, _, hw1, _⟩ := h1
-  have hP := run_popJumpIfFalse (rec := rec) (venv := venv) (vm := vm) hent2 st a rg1
+  have hP := run_popJumpIfFalse (venv := venv) (vm := vm) hent2 st a rg1
   simp only [htruthy, if_true] at hP
-  have h2 := expr_sim (rec := rec) hE ht fuel t htc _ loop st hc3
+  have h2 := expr_sim hE hB ht fuel t htc _ loop st sc hsc hc3
   constructor
   · intro v hv
     rw [hv] at h2
@@ -243,6 +271,7 @@ theorem ternary_lazy_compiled_true (hE : EnvRel venv eenv) (ht : reportTargetOk 
     refine ⟨tr1 ++ [_] ++ tr2 ++ [_], rg2,
       ((((hrun1.trans hP).trans hrun2).trans (run_jump hent4 _)).cast (by omega)), ?_⟩
     intro p hp hm
+    simp only [fStart] at hp
     simp only [List.mem_append, List.mem_singleton] at hm
     rcases hm with ((h | h) | h) | h
     · have := hw1 p h; omega
@@ -254,6 +283,7 @@ theorem ternary_lazy_compiled_true (hE : EnvRel venv eenv) (ht : reportTargetOk 
     obtain ⟨tr2, re, hf, hm, hw2, _⟩ := h2 hrep
     refine ⟨tr1 ++ [_] ++ tr2, re, (hrun1.trans hP).fails hf, hm, ?_⟩
     intro p hp hmem
+    simp only [fStart] at hp
     simp only [List.mem_append, List.mem_singleton] at hmem
     rcases hmem with (h | h) | h
     · have := hw1 p h; omega
@@ -262,18 +292,19 @@ theorem ternary_lazy_compiled_true (hE : EnvRel venv eenv) (ht : reportTargetOk 
 
 /-- `ternary_lazy_compiled`, condition falsy: the result is the `f` branch's and no instruction
 of `t`'s code range (nor the `Jump` closing it) is executed — for EVERY `t`. -/
-theorem ternary_lazy_compiled_false (hE : EnvRel venv eenv) (ht : reportTargetOk venv vm c = true)
-    (fuel : Nat) (cnd t f : Expr) (hc : InCore cnd) (hfc : InCore f) (base : Nat)
-    (loop : Option Nat) (st : State)
+theorem ternary_lazy_compiled_false (hE : EnvRel venv eenv) (hB : BuiltinsRel venv eenv)
+    (ht : reportTargetOk venv vm c = true)
+    (fuel : Nat) (cnd t f : Expr) (hc : InCore lf cnd) (hfc : InCore lf f) (base : Nat)
+    (loop : Option Nat) (st : State) (sc : Scope) (hsc : ScopeRel st sc)
     (hcode : CodeAt c base (exprCode base loop (.ternary cnd t f)))
-    (a : Value) (hev : evalExpr fuel eenv st.scope cnd = .ok a) (hfalsy : a.isTruthy = false) :
+    (a : Value) (hev : evalExpr fuel eenv sc cnd = .ok a) (hfalsy : a.isTruthy = false) :
     let tStart := base + (exprCode base loop cnd).length + 1
     let tEnd := tStart + (exprCode tStart loop t).length + 1
-    (∀ v, evalExpr fuel eenv st.scope f = .ok v →
-      ∃ tr rg, Run rec venv vm c base st tr (base + (exprCode base loop (.ternary cnd t f)).length)
+    (∀ v, evalExpr fuel eenv sc f = .ok v →
+      ∃ tr rg, Run venv vm c base st tr (base + (exprCode base loop (.ternary cnd t f)).length)
           (st.push v rg) ∧ ∀ p, tStart ≤ p → p < tEnd → p ∉ tr)
-    ∧ (∀ err, evalExpr fuel eenv st.scope f = .error err → reportable err = true →
-      ∃ tr re, Fails rec venv vm c base st tr re ∧ errMatch err re = true
+    ∧ (∀ err, evalExpr fuel eenv sc f = .error err → reportable err = true →
+      ∃ tr re, Fails venv vm c base st tr re ∧ errMatch err re = true
         ∧ ∀ p, tStart ≤ p → p < tEnd → p ∉ tr) := by
   intro tStart tEnd
   simp only [exprCode] at hcode ⊢
@@ -281,12 +312,12 @@ theorem ternary_lazy_compiled_false (hE : EnvRel venv eenv) (ht : reportTargetOk
   obtain ⟨⟨⟨⟨hc1, hc2⟩, _⟩, _⟩, hc5⟩ := hcode
   have hent2 := CodeAt.single.mp hc2
   simp only [List.length_append, List.length_singleton, ← Nat.add_assoc] at hc5 ⊢
-  have h1 := expr_sim (rec := rec) hE ht fuel cnd hc base loop st hc1
+  have h1 := expr_sim hE hB ht fuel cnd hc base loop st sc hsc hc1
   rw [hev] at h1
   obtain ⟨tr1, rg1, hrun1, _, hw1, _⟩ := h1
-  have hP := run_popJumpIfFalse (rec := rec) (venv := venv) (vm := vm) hent2 st a rg1
+  have hP := run_popJumpIfFalse (venv := venv) (vm := vm) hent2 st a rg1
   simp only [hfalsy, Bool.false_eq_true, if_false] at hP
-  have h2 := expr_sim (rec := rec) hE ht fuel f hfc _ loop st hc5
+  have h2 := expr_sim hE hB ht fuel f hfc _ loop st sc hsc hc5
   constructor
   · intro v hv
     rw [hv] at h2
@@ -315,54 +346,218 @@ theorem ternary_lazy_compiled_false (hE : EnvRel venv eenv) (ht : reportTargetOk
 (Props/C02Eval.lean `access_on_undefined_errors`, `optional_chaining`, `undefined_tolerated`,
 `math_expr_on_undefined_errors`).  For `e` in the core evaluating to undefined:
 `e.name` ends in an undefined-class rendering error; `e?.name` pushes undefined; `not e` pushes
-`true`; `e or r` is whatever `r` is; `e + r` (any arithmetic operator) is an error. -/
-theorem one_level_undefined_compiled (hE : EnvRel venv eenv)
-    (ht : reportTargetOk venv vm c = true) (fuel : Nat) (e : Expr) (he : InCore e)
-    (name : String) (base : Nat)
-    (loop : Option Nat) (st : State) (hu : evalExpr fuel eenv st.scope e = .ok .undef) :
+`true`; `e + r` is an error. -/
+theorem one_level_undefined_compiled (hE : EnvRel venv eenv) (hB : BuiltinsRel venv eenv)
+    (ht : reportTargetOk venv vm c = true) (fuel : Nat) (e : Expr) (he : InCore lf e)
+    (name : String) (base : Nat) (loop : Option Nat) (st : State) (sc : Scope)
+    (hsc : ScopeRel st sc) (hu : evalExpr fuel eenv sc e = .ok .undef) :
     (CodeAt c base (exprCode base loop (.getAttr e name false)) →
-      ∃ tr re, Fails rec venv vm c base st tr re ∧ errMatch .undefined re = true)
+      ∃ tr re, Fails venv vm c base st tr re ∧ errMatch .undefined re = true)
     ∧ (CodeAt c base (exprCode base loop (.getAttr e name true)) →
-      ∃ tr rg, Run rec venv vm c base st tr
+      ∃ tr rg, Run venv vm c base st tr
         (base + (exprCode base loop (.getAttr e name true)).length) (st.push .undef rg))
     ∧ (CodeAt c base (exprCode base loop (.unary .Not e)) →
-      ∃ tr rg, Run rec venv vm c base st tr
+      ∃ tr rg, Run venv vm c base st tr
         (base + (exprCode base loop (.unary .Not e)).length) (st.push (.bool true) rg))
-    ∧ (∀ r, InCore r → CodeAt c base (exprCode base loop (.binary .Plus e r)) →
-      ∀ v, evalExpr fuel eenv st.scope r = .ok v →
-      ∃ tr re, Fails rec venv vm c base st tr re ∧ errMatch (.num .notNumber) re = true) := by
+    ∧ (∀ r, InCore lf r → CodeAt c base (exprCode base loop (.binary .Plus e r)) →
+      ∀ v, evalExpr fuel eenv sc r = .ok v →
+      ∃ tr re, Fails venv vm c base st tr re ∧ errMatch (.num .notNumber) re = true) := by
   refine ⟨fun hcode => ?_, fun hcode => ?_, fun hcode => ?_, fun r hr hcode v hv => ?_⟩
-  · have h := expr_sim (rec := rec) hE ht (fuel + 1) _ (InCore.getAttr name false he) base loop st hcode
-    have hval : evalExpr (fuel + 1) eenv st.scope (.getAttr e name false) = .error .undefined := by
+  · have h := expr_sim hE hB ht (fuel + 1) _ (InCore.getAttr name false he) base loop st sc hsc hcode
+    have hval : evalExpr (fuel + 1) eenv sc (.getAttr e name false) = .error .undefined := by
       simp [evalExpr, hu, Value.isUndef]
     rw [hval] at h
     obtain ⟨tr, re, hf, hm, _, _⟩ := h rfl
     exact ⟨tr, re, hf, hm⟩
-  · have h := expr_sim (rec := rec) hE ht (fuel + 1) _ (InCore.getAttr name true he) base loop st hcode
-    have hval : evalExpr (fuel + 1) eenv st.scope (.getAttr e name true) = .ok .undef := by
+  · have h := expr_sim hE hB ht (fuel + 1) _ (InCore.getAttr name true he) base loop st sc hsc hcode
+    have hval : evalExpr (fuel + 1) eenv sc (.getAttr e name true) = .ok .undef := by
       simp [evalExpr, hu, Value.isUndef]
     rw [hval] at h
     obtain ⟨tr, rg, hrun, _, _, _⟩ := h
     exact ⟨tr, rg, hrun⟩
-  · have h := expr_sim (rec := rec) hE ht (fuel + 1) _ (InCore.unary .Not he) base loop st hcode
-    have hval : evalExpr (fuel + 1) eenv st.scope (.unary .Not e) = .ok (.bool true) := by
+  · have h := expr_sim hE hB ht (fuel + 1) _ (InCore.unary .Not he) base loop st sc hsc hcode
+    have hval : evalExpr (fuel + 1) eenv sc (.unary .Not e) = .ok (.bool true) := by
       simp [evalExpr, hu, Value.isTruthy]
     rw [hval] at h
     obtain ⟨tr, rg, hrun, _, _, _⟩ := h
     exact ⟨tr, rg, hrun⟩
-  · have h := expr_sim (rec := rec) hE ht (fuel + 1) _ (InCore.binary .Plus rfl he hr) base loop st hcode
-    have hval : evalExpr (fuel + 1) eenv st.scope (.binary .Plus e r) = .error (.num .notNumber) := by
+  · have h := expr_sim hE hB ht (fuel + 1) _ (InCore.binary .Plus rfl he hr) base loop st sc hsc hcode
+    have hval : evalExpr (fuel + 1) eenv sc (.binary .Plus e r) = .error (.num .notNumber) := by
       simp [evalExpr, hu, hv, binop, Value.isNumber]
     rw [hval] at h
     obtain ⟨tr, re, hf, hm, _, _⟩ := h rfl
     exact ⟨tr, re, hf, hm⟩
 
 end
+
+/-! ## R3: `compile_node_correct` -/
+
+/-- The statement, for statement lists all of whose members satisfy `P`: the evaluator's
+`execNodes` on the statement state `est` against the VM on a state `st` related to it.  When the
+evaluator ends normally in `est'`, the VM ends at the end of the code in `withSc st est' sc'`:
+value stack and block bookkeeping untouched; output and capture stack are the evaluator's (so the
+text appended is the evaluator's), and the scope `sc'` corresponds to the evaluator's (so the
+variables assigned are the evaluator's). -/
+def CompileNodesCorrect (P : Node → Prop) (bounded : Bool) : Prop :=
+  ∀ (rec : VmCtx → Chunk → State → RunRes) (venv : Vm.Env) (eenv : Tera.Env) (vm : VmCtx)
+    (name : String) (pre post vcode : List VEntry) (loop : Option Nat) (ns : List Node),
+    (∀ n ∈ ns, P n) → EnvRel venv eenv → BuiltinsRel venv eenv →
+    embed (nodesCode pre.length loop ns) = some vcode →
+    reportTargetOk venv vm ⟨name, pre ++ vcode ++ post⟩ = true →
+    ∀ (st : State) (est : Tera.St), StRel st est → ∀ (fuel : Nat),
+      (∀ est', execNodes fuel eenv vm.autoescape est ns = .ok (est', .normal) →
+        ∃ n sc', (bounded = true → n ≤ vcode.length) ∧ ScopeSim est'.scope sc' ∧
+          ∀ k, runLoop rec venv vm ⟨name, pre ++ vcode ++ post⟩ (n + k) pre.length st
+            = runLoop rec venv vm ⟨name, pre ++ vcode ++ post⟩ k (pre.length + vcode.length)
+                (withSc st est' sc'))
+      ∧ (∀ err, execNodes fuel eenv vm.autoescape est ns = .error err → reportable err = true →
+        ∃ n re, (bounded = true → n ≤ vcode.length) ∧ errMatch err re = true ∧
+          ∀ k, runLoop rec venv vm ⟨name, pre ++ vcode ++ post⟩ (n + k) pre.length st = .err re)
+
+/-- Full strength: every statement list the parser can produce outside a loop body
+(`nodesScoped false`: no stray `break` / `continue`, no binary `Is` / `Pipe`).  NOT proved in
+full: `compile_nodes_correct_core` proves it for `InCoreNode` (no set block, filter section,
+include, block, component call). -/
+def compile_nodes_correct_full : Prop :=
+  ∀ (ns : List Node), nodesScoped false ns = true → CompileNodesCorrect (fun n => n ∈ ns) false
+
+/-- `compile_node_correct` on the statement core `InCoreNode lf false` (outside a loop body):
+template text, `{{ e }}`, `{% set %}` / `{% set_global %}`, `{% if %}` / `{% elif %}` /
+`{% else %}`, over `InCore lf` expressions. -/
+theorem compile_nodes_correct_core (lf : Bool) : CompileNodesCorrect (InCoreNode lf false) lf := by
+  intro rec venv eenv vm name pre post vcode loop ns hcore hE hB hemb ht st est hrel fuel
+  have hlen := embed_length hemb
+  have hcode := codeAt_of_embed (name := name) (pre := pre) (post := post) hemb
+  have hsim := nodes_sim hE hB ht fuel false ns hcore pre.length loop st est hrel
+    (fun h => by cases h) hcode
+  constructor
+  · intro est' hv
+    rw [hv] at hsim
+    obtain ⟨tr, sc', hsc', _, hrun, _, hl⟩ := hsim
+    refine ⟨tr.length, sc', fun h => by have := hl h; omega, hsc', fun k => ?_⟩
+    rw [hlen]
+    exact Run.runLoop hrun k
+  · intro err hv hrep
+    rw [hv] at hsim
+    obtain ⟨tr, re, hf, hm, _, hl⟩ := hsim hrep
+    exact ⟨tr.length, re, fun h => by have := hl h; omega, hm, fun k => hf.runLoop k⟩
+
+/-- The same with the code anywhere in any chunk, inside or outside a loop body, with the trace
+and with the `break` / `continue` signals (`NodeOutcome`: where the run stops for each signal). -/
+theorem compile_nodes_correct_at {venv : Vm.Env}
+    {eenv : Tera.Env} {vm : VmCtx} {c : Chunk} {lf : Bool} (hE : EnvRel venv eenv)
+    (hB : BuiltinsRel venv eenv) (ht : reportTargetOk venv vm c = true) (fuel : Nat)
+    (inLoop : Bool) (ns : List Node) (hns : ∀ n ∈ ns, InCoreNode lf inLoop n) (base : Nat)
+    (loop : Option Nat) (st : State) (est : Tera.St) (hst : StRel st est)
+    (hctx : LoopCtx inLoop loop st) (hcode : CodeAt c base (nodesCode base loop ns)) :
+    NodeOutcome venv vm c lf loop (execNodes fuel eenv vm.autoescape est ns) base
+      (nodesCode base loop ns).length st :=
+  nodes_sim hE hB ht fuel inLoop ns hns base loop st est hst hctx hcode
+
+/-- One statement. -/
+theorem compile_node_correct_at {venv : Vm.Env}
+    {eenv : Tera.Env} {vm : VmCtx} {c : Chunk} {lf : Bool} (hE : EnvRel venv eenv)
+    (hB : BuiltinsRel venv eenv) (ht : reportTargetOk venv vm c = true) (fuel : Nat)
+    (inLoop : Bool) (n : Node) (hn : InCoreNode lf inLoop n) (base : Nat)
+    (loop : Option Nat) (st : State) (est : Tera.St) (hst : StRel st est)
+    (hctx : LoopCtx inLoop loop st) (hcode : CodeAt c base (nodeCode base loop n)) :
+    NodeOutcome venv vm c lf loop (execNode fuel eenv vm.autoescape est n) base
+      (nodeCode base loop n).length st :=
+  node_sim hE hB ht fuel inLoop n hn base loop st est hst hctx hcode
+
+/-- End to end for a template of the loop-free core: when the VM's template table holds, under
+`name`, a template without parents whose chunk is the compiled body (`nodesCode 0 none nodes`,
+embedded), and the evaluator's table holds the same body with the same autoescape flag, then
+whatever `Tera.render` (Model/Eval.lean) gives, `Vm.render` (Model/Vm.lean) gives: the same text,
+or an error of the same class — with any nesting depth `≥ 1` and any step fuel `≥ |code|`. -/
+theorem render_correct_core (venv : Vm.Env) (eenv : Tera.Env) (hE : EnvRel venv eenv)
+    (hB : BuiltinsRel venv eenv)
+    (name : String) (tpl : TemplateInfo) (nodes : List Node) (vcode : List VEntry)
+    (hv : venv.template name = some tpl) (hpar : tpl.parents = [])
+    (hchunk : tpl.chunk = ⟨tpl.name, vcode⟩)
+    (hemb : embed (nodesCode 0 none nodes) = some vcode)
+    (he : eenv.template name = some ⟨nodes, tpl.autoescape⟩)
+    (hcore : ∀ n ∈ nodes, InCoreNode true false n) (ctx g : Ctx) (fuel depth steps : Nat)
+    (hsteps : vcode.length ≤ steps) :
+    (∀ text, Tera.render fuel eenv name ctx g = .ok text →
+      Vm.render ⟨depth + 1, steps⟩ venv name none ctx g = .ok text)
+    ∧ (∀ err, Tera.render fuel eenv name ctx g = .error err → reportable err = true →
+      ∃ re, errMatch err re = true ∧ Vm.render ⟨depth + 1, steps⟩ venv name none ctx g = .err re) := by
+  have hcode := codeAt_of_embed (name := tpl.name) (pre := []) (post := []) hemb
+  simp only [List.nil_append, List.append_nil, List.length_nil] at hcode
+  have hlen := embed_length hemb
+  let vm : VmCtx := { template := tpl, autoescapeOverride := none, depth := 0 }
+  have ht : reportTargetOk venv vm ⟨tpl.name, vcode⟩ = true := by simp [reportTargetOk, vm]
+  have hsim : NodeOutcome (interp venv steps depth) venv vm ⟨tpl.name, vcode⟩ true none
+      (execNodes fuel eenv tpl.autoescape { scope := Scope.root ctx g, out := [], captures := [] } nodes)
+      0 (nodesCode 0 none nodes).length (entryState none ctx g) :=
+    nodes_sim (rec := interp venv steps depth) (vm := vm) hE hB ht fuel false nodes hcore 0 none
+      (entryState none ctx g) { scope := Scope.root ctx g, out := [], captures := [] }
+      ⟨ScopeSim.refl _, rfl, rfl⟩ (fun h => by cases h) hcode
+  have hrender : Vm.render ⟨depth + 1, steps⟩ venv name none ctx g
+      = outcomeOf none (runLoop (interp venv steps depth) venv vm ⟨tpl.name, vcode⟩ steps 0
+          (entryState none ctx g)) := by
+    simp only [Vm.render, hv, lineageMissing, Bool.false_eq_true, if_false, entryChunk, hpar,
+      List.head?_nil, hchunk, run, interp]
+    rfl
+  have hdone : ∀ (k : Nat) (st' : State),
+      runLoop (interp venv steps depth) venv vm ⟨tpl.name, vcode⟩ k (0 + vcode.length) st' = .done st' := by
+    intro k st'
+    have hnone : (⟨tpl.name, vcode⟩ : Chunk).code[0 + vcode.length]? = none := by simp
+    cases k <;> simp only [runLoop, hnone]
+  constructor
+  · intro text htext
+    simp only [Tera.render, he] at htext
+    cases hr : execNodes fuel eenv tpl.autoescape
+        { scope := Scope.root ctx g, out := [], captures := [] } nodes with
+    | error err => simp [hr] at htext
+    | ok p =>
+      obtain ⟨est', sig⟩ := p
+      cases sig with
+      | normal =>
+        simp only [hr, Except.ok.injEq] at htext
+        rw [hr] at hsim
+        obtain ⟨tr, sc', _, _, hrun, _, hl⟩ := hsim
+        have hl := hl rfl
+        have hrun' : Run (interp venv steps depth) venv vm ⟨tpl.name, vcode⟩ 0 (entryState none ctx g) tr
+            (0 + (nodesCode 0 none nodes).length) (withSc (entryState none ctx g) est' sc') := hrun
+        rw [hrender]
+        have := hrun'.runLoop (steps - tr.length)
+        rw [← hlen] at hl
+        rw [show tr.length + (steps - tr.length) = steps by omega, ← hlen, hdone] at this
+        rw [this]
+        simp only [outcomeOf, Option.isSome_none, Bool.false_eq_true, if_false, withSc, htext]
+      | brk => simp [hr] at htext
+      | cont => simp [hr] at htext
+  · intro err herr hrep
+    simp only [Tera.render, he] at herr
+    cases hr : execNodes fuel eenv tpl.autoescape
+        { scope := Scope.root ctx g, out := [], captures := [] } nodes with
+    | ok p =>
+      obtain ⟨est', sig⟩ := p
+      cases sig <;> simp only [hr] at herr
+      · cases herr
+      · cases herr; simp [reportable] at hrep
+      · cases herr; simp [reportable] at hrep
+    | error err' =>
+      simp only [hr, Except.error.injEq] at herr
+      subst herr
+      rw [hr] at hsim
+      obtain ⟨tr, re, hf, hm, _, hl⟩ := hsim hrep
+      have hl := hl rfl
+      refine ⟨re, hm, ?_⟩
+      rw [hrender]
+      have := hf.runLoop (steps - tr.length)
+      rw [← hlen] at hl
+      rw [show tr.length + (steps - tr.length) = steps by omega] at this
+      rw [this]
+      rfl
+
 /-! ## Spot checks: concrete expressions through both models (kernel-evaluated)
 
 `agree e ctx`: evaluate `e` with the evaluator in `Scope.root ctx []`; compile it at index 0,
 embed the code, run the VM's interpreter loop on it from the fresh state over the same scope with
-exactly `|code|` units of step fuel; compare: a value with the single slot left on the stack, an
+exactly `|code|` units of step fuel (400 when `loops` is set); compare: a value with the single slot left on the stack, an
 error with the rendering error's class. -/
 
 def exF : FloatOps :=
@@ -371,31 +566,72 @@ def exF : FloatOps :=
 
 def exEenv : Tera.Env := { templates := [], F := exF, fmtF64 := fun _ => [] }
 
-def exVenv : Vm.Env :=
+/-- a built-in's result in the evaluator's table as a result of the VM's table -/
+def callOf (r : Except Err Value) : CallRes :=
+  match r with
+  | .ok v => .ok v
+  | .error (.unsupported _) => .unmodelled
+  | .error .fuel => .unmodelled
+  | .error _ => .err
+
+/-- the VM environment whose built-in tables ARE the evaluator's (nothing registered as safe: the
+evaluator's `safe` returns a safe string itself) -/
+def venvOf (eenv : Tera.Env) : Vm.Env :=
   { templates := [], components := [],
-    hasFilter := fun _ => false, hasTest := fun _ => false, hasFunction := fun _ => false,
-    callFilter := fun _ _ _ => .err, filterIsSafe := fun _ => false,
-    callTest := fun _ _ _ => .err, callFunction := fun _ _ => .err, functionIsSafe := fun _ => false,
-    F := exF, fmtF64 := fun _ => [] }
+    hasFilter := fun _ => true, hasTest := fun _ => true, hasFunction := fun _ => true,
+    callFilter := fun n v kw => callOf (applyFilter eenv n v kw), filterIsSafe := fun _ => false,
+    callTest := fun n v _ => callOf ((applyTest n v).map Value.bool),
+    callFunction := fun n kw => callOf (applyFunction n kw), functionIsSafe := fun _ => false,
+    F := eenv.F, fmtF64 := eenv.fmtF64 }
+
+/-- `BuiltinsRel` and `EnvRel` are satisfiable, for every evaluator environment -/
+theorem builtinsRel_venvOf (eenv : Tera.Env) : BuiltinsRel (venvOf eenv) eenv := by
+  refine ⟨?_, ?_, ?_⟩
+  · intro name v kw _
+    cases hr : applyFilter eenv name v kw with
+    | ok r => exact ⟨rfl, r, by simp [venvOf, callOf, hr], rfl⟩
+    | error err =>
+      intro hrep
+      refine ⟨rfl, .inr ?_⟩
+      cases err <;> simp [reportable] at hrep <;> simp [venvOf, callOf, hr]
+  · intro name v kw _
+    cases hr : applyTest name v with
+    | ok b => exact ⟨rfl, by simp [venvOf, callOf, hr, Except.map]⟩
+    | error err =>
+      intro hrep
+      refine ⟨rfl, .inr ?_⟩
+      cases err <;> simp [reportable] at hrep <;> simp [venvOf, callOf, hr, Except.map]
+  · intro name kw _
+    cases hr : applyFunction name kw with
+    | ok r => exact ⟨rfl, r, by simp [venvOf, callOf, hr], rfl⟩
+    | error err =>
+      intro hrep
+      refine ⟨rfl, .inr ?_⟩
+      cases err <;> simp [reportable] at hrep <;> simp [venvOf, callOf, hr]
+
+theorem envRel_venvOf (eenv : Tera.Env) : EnvRel (venvOf eenv) eenv := ⟨rfl, rfl⟩
+
+def exVenv : Vm.Env := venvOf exEenv
 
 def exVm : VmCtx :=
   { template := { name := "t", chunk := ⟨"t", []⟩, autoescape := true, parents := [],
                   blockLineage := [], components := [] },
     autoescapeOverride := none, depth := 0 }
 
-def agree (e : Expr) (ctx : Ctx) : Bool :=
+def agree (e : Expr) (ctx : Ctx) (loops : Bool := false) : Bool :=
   match embed (exprCode 0 none e) with
   | none => false
   | some vcode =>
     match evalExpr 20 exEenv (Scope.root ctx []) e,
-        runLoop (fun _ _ _ => .outOfFuel) exVenv exVm ⟨"t", vcode⟩ vcode.length 0
+        runLoop (fun _ _ _ => .outOfFuel) exVenv exVm ⟨"t", vcode⟩ (if loops then 400 else vcode.length) 0
           (State.fresh (Scope.root ctx [])) with
     | .ok v, .done st' => (match st'.stack with | [(w, _)] => v == w | _ => false)
     | .error err, .err re => errMatch err re
     | _, _ => false
 
 /-- the hypotheses of the theorems are satisfiable -/
-example : EnvRel exVenv exEenv := ⟨rfl, rfl⟩
+example : EnvRel exVenv exEenv := envRel_venvOf _
+example : BuiltinsRel exVenv exEenv := builtinsRel_venvOf _
 example (code : List VEntry) : reportTargetOk exVenv exVm ⟨"t", code⟩ = true := by
   simp [reportTargetOk, exVm]
 
@@ -404,7 +640,7 @@ def strLit (s : String) : Expr := .const (.str false s.toList)
 
 /-- `1 + 2 * 3` -/
 def ex1 : Expr := .binary .Plus (num 1) (.binary .Mul (num 2) (num 3))
-example : InCore ex1 := .binary _ rfl (.const _) (.binary _ rfl (.const _) (.const _))
+example : InCore true ex1 := .binary _ rfl (.const _) (.binary _ rfl (.const _) (.const _))
 example : agree ex1 [] = true := by decide +kernel
 example : (match evalExpr 20 exEenv (Scope.root [] []) ex1 with | .ok (.i128 7) => true | _ => false) = true := by
   decide +kernel
@@ -412,7 +648,7 @@ example : (match evalExpr 20 exEenv (Scope.root [] []) ex1 with | .ok (.i128 7) 
 /-- `a and b.c or "x"` -/
 def ex2 : Expr :=
   .binary .Or (.binary .And (.var "a") (.getAttr (.var "b") "c" false)) (strLit "x")
-example : InCore ex2 := .or (.and (.var _) (.getAttr _ _ (.var _))) (.const _)
+example : InCore true ex2 := .or (.and (.var _) (.getAttr _ _ (.var _))) (.const _)
 /-- `a` truthy, `b.c` truthy: the result is `b.c` -/
 example : agree ex2 [("a", .bool true), ("b", .map [(.str ['c'], .u64 5)])] = true := by decide +kernel
 /-- `a` falsy: `b.c` is skipped (here `b` is undefined: evaluating `b.c` would be an error) -/
@@ -426,7 +662,7 @@ example : agree ex2 [("a", .bool true), ("b", .map [])] = true := by decide +ker
 
 /-- `x if c else y.z` -/
 def ex3 : Expr := .ternary (.var "c") (.var "x") (.getAttr (.var "y") "z" false)
-example : InCore ex3 := .ternary (.var _) (.var _) (.getAttr _ _ (.var _))
+example : InCore true ex3 := .ternary (.var _) (.var _) (.getAttr _ _ (.var _))
 /-- `c` truthy: `y.z` is not evaluated although `y` is undefined -/
 example : agree ex3 [("c", .bool true), ("x", .u64 1)] = true := by decide +kernel
 /-- `c` falsy, `y` undefined: error in both -/
@@ -443,6 +679,213 @@ example : agree (.binary .Equal (.binary .Power (num 2) (.binary .Power (num 3) 
   decide +kernel
 example : agree (.getAttr (.getAttr (.var "a") "b" true) "c" true) [] = true := by decide +kernel
 example : agree (.getAttr (.getAttr (.var "a") "b" false) "c" false) [("a", .map [])] = true := by
+  decide +kernel
+
+/-- `a[1]`, `a[i]` with `i` undefined, `s[1:]`, `s[::-1]`, `a?[0]`, `a[::0]` (step 0), `m["k"]` -/
+example : agree (.getItem (.var "a") (num 1) false) [("a", .arr [.u64 7, .u64 8])] = true := by
+  decide +kernel
+example : agree (.getItem (.var "a") (.var "i") false) [("a", .arr [.u64 7, .u64 8])] = true := by
+  decide +kernel
+example : agree (.slice (.var "s") (some (num 1)) none none false) [("s", .str false ['a', 'b', 'c'])] = true := by
+  decide +kernel
+example : agree (.slice (.var "s") none none (some (num (-1))) false) [("s", .arr [.u64 1, .u64 2])] = true := by
+  decide +kernel
+example : agree (.getItem (.var "a") (num 0) true) [] = true := by decide +kernel
+example : agree (.slice (.var "s") none none (some (num 0)) false) [("s", .arr [.u64 1, .u64 2])] = true := by
+  decide +kernel
+example : agree (.slice (.var "s") (some (.var "u")) none none false) [("s", .arr [.u64 1, .u64 2])] = true := by
+  decide +kernel
+example : agree (.getItem (.var "m") (strLit "k") false) [("m", .map [(.str ['k'], .bool true)])] = true := by
+  decide +kernel
+
+/-- array and map literals with spreads; `in` on a literal; a spread of a non-array is an error in
+both models -/
+example : agree (.array [.item (num 1), .item (.var "a"), .spread (.var "b")])
+    [("a", .bool true), ("b", .arr [.u64 7, .u64 8])] = true := by decide +kernel
+example : agree (.array [.item (num 1), .spread (.var "b")]) [("b", .u64 7)] = true := by decide +kernel
+example : agree (.array []) [] = true := by decide +kernel
+example : agree (.binary .In (num 2) (.array [.item (num 1), .item (num 2)])) [] = true := by
+  decide +kernel
+example : agree (.map [.keyValue (.str ['k']) (num 1), .keyValue (.str ['k']) (num 2),
+    .keyValue (.u64 3) (.var "a")]) [("a", .bool true)] = true := by decide +kernel
+example : agree (.map [.keyValue (.str ['k']) (num 1), .spread (.var "m"), .keyValue (.str ['j']) (num 2)])
+    [("m", .map [(.str ['k'], .u64 9), (.str ['z'], .u64 8)])] = true := by decide +kernel
+example : agree (.map [.spread (.var "m")]) [("m", .u64 1)] = true := by decide +kernel
+example : agree (.map []) [] = true := by decide +kernel
+
+/-- filters, tests and functions with keyword arguments (the VM's table is `venvOf`) -/
+example : agree (.filter (.var "x") "default" [("value", strLit "d")]) [] = true := by decide +kernel
+example : agree (.filter (.var "x") "default" [("boolean", .const (.bool true)), ("value", strLit "d")])
+    [("x", .u64 0)] = true := by decide +kernel
+example : agree (.filter (.var "s") "upper" []) [("s", .str false ['a', 'b'])] = true := by decide +kernel
+example : agree (.filter (.var "s") "upper" []) [("s", .u64 1)] = true := by decide +kernel
+example : agree (.filter (.array [.item (num 1), .item (num 2)]) "join" [("sep", strLit ", ")]) [] = true := by
+  decide +kernel
+example : agree (.filter (.filter (.var "s") "safe" []) "length" []) [("s", .str false ['a', 'b'])] = true := by
+  decide +kernel
+example : agree (.test (.var "x") "defined" []) [] = true := by decide +kernel
+example : agree (.test (.getAttr (.var "x") "y" false) "defined" []) [] = true := by decide +kernel
+example : agree (.test (num 3) "odd" []) [] = true := by decide +kernel
+example : agree (.test (strLit "a") "odd" []) [] = true := by decide +kernel
+example : agree (.functionCall "range" [("end", num 3)]) [] = true := by decide +kernel
+example : agree (.functionCall "range" [("end", num 3), ("start", .var "u")]) [] = true := by decide +kernel
+example : agree (.functionCall "throw" [("message", strLit "boom")]) [] = true := by decide +kernel
+example : agree (.binary .Or (.var "a") (.functionCall "throw" [("message", strLit "boom")]))
+    [("a", .u64 1)] = true := by decide +kernel
+
+/-- list comprehensions: `[x * 2 for x in xs if x > 1]`, over a map with key and value, over a
+non-iterable (error), with an error in the body, nested, with the loop variable shadowing -/
+def exCompr : Expr :=
+  .listComprehension (.binary .Mul (.var "x") (num 2)) none "x" (.var "xs")
+    (some (.binary .GreaterThan (.var "x") (num 1)))
+example : InCore false exCompr :=
+  .compr _ _ rfl (.binary _ rfl (.var _) (.const _)) (.var _)
+    (fun x hx => by cases hx; exact .binary _ rfl (.var _) (.const _))
+example : agree exCompr [("xs", .arr [.u64 1, .u64 2, .u64 3])] true = true := by decide +kernel
+example : (match evalExpr 20 exEenv (Scope.root [("xs", .arr [.u64 1, .u64 2, .u64 3])] []) exCompr with
+    | .ok (.arr [.i128 4, .i128 6]) => true | _ => false) = true := by decide +kernel
+example : agree exCompr [("xs", .arr [])] true = true := by decide +kernel
+example : agree exCompr [("xs", .u64 3)] true = true := by decide +kernel
+example : agree exCompr [("xs", .arr [.u64 5, .str false ['a']])] true = true := by decide +kernel
+example : agree (.listComprehension (.binary .StrConcat (.var "k") (.var "v")) (some "k") "v" (.var "m") none)
+    [("m", .map [(.str ['b'], .u64 2), (.str ['a'], .u64 1)])] true = true := by decide +kernel
+example : agree (.listComprehension (.var "v") (some "k") "v" (.var "m") none)
+    [("m", .arr [.u64 1])] true = true := by decide +kernel
+example : agree (.listComprehension
+      (.listComprehension (.binary .Plus (.var "x") (.var "y")) none "y" (.var "x2") none)
+      none "x" (.var "xs") none)
+    [("xs", .arr [.u64 1, .u64 2]), ("x2", .arr [.u64 10, .u64 20])] true = true := by decide +kernel
+example : agree (.binary .Plus (.var "x")
+      (.filter (.listComprehension (.var "x") none "x" (.var "xs") none) "length" []))
+    [("x", .u64 100), ("xs", .arr [.u64 1, .u64 2])] true = true := by decide +kernel
+
+/-! ### whole templates of the statement core through `Tera.render` and `Vm.render` -/
+
+def agreeT (nodes : List Node) (ae : Bool) (ctx : Ctx) (loops : Bool := false) : Bool :=
+  match embed (nodesCode 0 none nodes) with
+  | none => false
+  | some vcode =>
+    let tpl : TemplateInfo := { name := "t", chunk := ⟨"t", vcode⟩, autoescape := ae, parents := [],
+                                blockLineage := [], components := [] }
+    match Tera.render 40 { exEenv with templates := [("t", ⟨nodes, ae⟩)] } "t" ctx [],
+        Vm.render ⟨1, if loops then 2000 else vcode.length⟩ { exVenv with templates := [("t", tpl)] } "t" none ctx [] with
+    | .ok text, .ok text' => text == text' && !text.isEmpty
+    | .error err, .err re => errMatch err re
+    | _, _ => false
+
+/-- `Hello {{ name }}!{% if a and b.c %}X{% elif z %}Y{% else %}{{ 1 + 2 * 3 }}{% endif %}`
+`{% set q = a or "<d>" %}{{ q }}` -/
+def exBody : List Node :=
+  [.content "Hello ", .expression (.var "name"), .content "!",
+   .if ex2body [.content "X"] [.if (.var "z") [.content "Y"] [.expression ex1]],
+   .set "q" (.binary .Or (.var "a") (strLit "<d>")) false, .expression (.var "q")]
+where ex2body : Expr := .binary .And (.var "a") (.getAttr (.var "b") "c" false)
+
+example : ∀ n ∈ exBody, InCoreNode true false n := by
+  intro n hn
+  simp only [exBody, List.mem_cons, List.not_mem_nil, or_false] at hn
+  rcases hn with rfl | rfl | rfl | rfl | rfl | rfl
+  · exact .content _
+  · exact .expression (.var _)
+  · exact .content _
+  · refine .if (.and (.var _) (.getAttr _ _ (.var _))) ?_ ?_
+    · intro m hm; simp only [List.mem_singleton] at hm; subst hm; exact .content _
+    · intro m hm; simp only [List.mem_singleton] at hm; subst hm
+      refine .if (.var _) ?_ ?_
+      · intro k hk; simp only [List.mem_singleton] at hk; subst hk; exact .content _
+      · intro k hk; simp only [List.mem_singleton] at hk; subst hk
+        exact .expression (.binary _ rfl (.const _) (.binary _ rfl (.const _) (.const _)))
+  · exact .set _ _ (.or (.var _) (.const _))
+  · exact .expression (.var _)
+
+/-- first branch; autoescape on (the `<d>` default is not reached: `a` is truthy) -/
+example : agreeT exBody true [("name", .str false ['<', 'b', '>']), ("a", .u64 1),
+    ("b", .map [(.str ['c'], .bool true)])] = true := by decide +kernel
+/-- `elif` branch -/
+example : agreeT exBody true [("name", .str false ['x']), ("a", .u64 0), ("z", .bool true)] = true := by
+  decide +kernel
+/-- `else` branch, `q` gets the (escaped) default -/
+example : agreeT exBody true [("name", .str false ['x'])] = true := by decide +kernel
+example : agreeT exBody false [("name", .str false ['x'])] = true := by decide +kernel
+/-- `name` undefined: printing it is an undefined-class error in both -/
+example : agreeT exBody true [("a", .u64 1)] = true := by decide +kernel
+/-- `a` truthy, `b` undefined: `b.c` is an error in both -/
+example : agreeT exBody true [("name", .str false ['x']), ("a", .u64 1)] = true := by decide +kernel
+
+/-- `{% for k, v in m %}{{ loop.index }}:{{ k }}={{ v }}{% if v == 2 %}{% continue %}{% endif %}`
+`{% if v > 2 %}{% break %}{% endif %},{% else %}none{% endfor %}|`
+`{% for x in xs %}{% set s = x %}{% for y in [1, 2] %}{{ x * y }} {% endfor %}{% endfor %}{{ s }}` -/
+def exLoops : List Node :=
+  [.forLoop (some "k") "v" (.var "m")
+     [.expression (.var "__tera_loop_index"), .content ":", .expression (.var "k"), .content "=",
+      .expression (.var "v"),
+      .if (.binary .Equal (.var "v") (num 2)) [.continue] [],
+      .if (.binary .GreaterThan (.var "v") (num 2)) [.break] [],
+      .content ","]
+     [.content "none"],
+   .content "|",
+   .forLoop none "x" (.var "xs")
+     [.set "s" (.var "x") false,
+      .forLoop none "y" (.array [.item (num 1), .item (num 2)])
+        [.expression (.binary .Mul (.var "x") (.var "y")), .content " "] []]
+     [],
+   .expression (.test (.var "s") "defined" [])]
+
+example : ∀ n ∈ exLoops, InCoreNode false false n := by
+  intro n hn
+  simp only [exLoops, List.mem_cons, List.not_mem_nil, or_false] at hn
+  rcases hn with rfl | rfl | rfl | rfl
+  · refine .forLoop _ _ rfl (.var _) ?_ ?_
+    · intro m hm
+      simp only [List.mem_cons, List.not_mem_nil, or_false] at hm
+      rcases hm with rfl | rfl | rfl | rfl | rfl | rfl | rfl | rfl
+      · exact .expression (.var _)
+      · exact .content _
+      · exact .expression (.var _)
+      · exact .content _
+      · exact .expression (.var _)
+      · refine .if (.binary _ rfl (.var _) (.const _)) ?_ ?_
+        · intro k hk; simp only [List.mem_singleton] at hk; subst hk; exact .continue
+        · intro k hk; cases hk
+      · refine .if (.binary _ rfl (.var _) (.const _)) ?_ ?_
+        · intro k hk; simp only [List.mem_singleton] at hk; subst hk; exact .break
+        · intro k hk; cases hk
+      · exact .content _
+    · intro m hm; simp only [List.mem_singleton] at hm; subst hm; exact .content _
+  · exact .content _
+  · refine .forLoop _ _ rfl (.var _) ?_ ?_
+    · intro m hm
+      simp only [List.mem_cons, List.not_mem_nil, or_false] at hm
+      rcases hm with rfl | rfl
+      · exact .set _ _ (.var _)
+      · refine .forLoop _ _ rfl (.array ?_) ?_ ?_
+        · intro it hit
+          simp only [List.mem_cons, List.not_mem_nil, or_false] at hit
+          rcases hit with rfl | rfl <;> exact .const _
+        · intro k hk
+          simp only [List.mem_cons, List.not_mem_nil, or_false] at hk
+          rcases hk with rfl | rfl
+          · exact .expression (.binary _ rfl (.var _) (.var _))
+          · exact .content _
+        · intro k hk; cases hk
+    · intro m hm; cases hm
+  · exact .expression (.test _ (.var _) (fun p hp => by cases hp) (by simp))
+
+/-- `break` at the third entry, `continue` at the second; nested loops; `s` is loop-local -/
+example : agreeT exLoops false [("m", .map [(.str ['a'], .u64 1), (.str ['b'], .u64 2),
+    (.str ['c'], .u64 3), (.str ['d'], .u64 4)]), ("xs", .arr [.u64 3, .u64 4])] true = true := by
+  decide +kernel
+example : (match Tera.render 40 { exEenv with templates := [("t", ⟨exLoops, false⟩)] } "t"
+      [("m", .map [(.str ['a'], .u64 1), (.str ['b'], .u64 2), (.str ['c'], .u64 3), (.str ['d'], .u64 4)]),
+       ("xs", .arr [.u64 3, .u64 4])] [] with
+    | .ok text => text == "1:a=1,2:b=23:c=3|3 6 4 8 false".toList
+    | _ => false) = true := by decide +kernel
+/-- empty map: the else branch; empty `xs` -/
+example : agreeT exLoops false [("m", .map []), ("xs", .arr [])] true = true := by decide +kernel
+/-- `m` not a map with key/value iteration: an iteration error in both -/
+example : agreeT exLoops false [("m", .arr [.u64 1]), ("xs", .arr [])] true = true := by decide +kernel
+/-- an error inside the inner loop body (`x * y` with a string) -/
+example : agreeT exLoops false [("m", .map []), ("xs", .arr [.str false ['a']])] true = true := by
   decide +kernel
 
 end Tera.Refine
